@@ -79,6 +79,14 @@ def run(ctx):
         g = gen_partial(R, infos["en"])
         if g:
             items.append((g[0], ["en"], None, ABS, g[1]))
+    # two numeric fields — a one/two-digit number and a four-digit year — state the year and *one* of day / month, whatever the language's
+    # date order: no result when both day and month are required
+    for lang in ld["order"]:
+        for _ in range(2 if tier == "quick" else 8):
+            n = R.choice([R.randint(1, 12), R.randint(1, 12), R.randint(13, 31)])
+            y = R.choice([1999, 2015, 2024])
+            form = R.choice(["%02d %d", "%d %d", "%02d/%d", "%02d-%d"]) % (n, y) if R.random() < 0.6 else R.choice(["%d %02d", "%d/%02d", "%d.%02d"]) % (y, n)
+            items.append((form, [lang], None, ABS, ["year", "one-of-day-month"]))
     # custom formats and timestamps
     FM = [("%B %Y", lambda: "%s %d" % (R.choice(calendar.month_name[1:]), R.choice([1999, 2024])), ["month", "year"]),
           ("%B", lambda: R.choice(calendar.month_name[1:]), ["month"]),
@@ -146,7 +154,10 @@ def run(ctx):
                 if bad:
                     why = "required part(s) %s differ between reference times: %r vs %r" % (bad, v1, v2)
             if why is None and stated is not None and v1 is not None and not str(v1).startswith("ERR:"):
-                missing = [p for p in need if p not in stated]
+                if "one-of-day-month" in stated:
+                    missing = ["day and month (one number cannot be both)"] if ("day" in need and "month" in need) else []
+                else:
+                    missing = [p for p in need if p not in stated]
                 if missing:
                     why = "result although the string does not state %s" % missing
             if why:
